@@ -321,6 +321,63 @@ GCM_ELAB = Unit("C09.elaborate_generatorbased_contextmanager", GC_ + "elaborate_
                 methods=dict(STD_METHODS), ctors=dict(CTORS), known_classes=KNOWN,
                 assumptions=["format_funcall is total (format_funcname catches AttributeError; reprs are total)"])
 
+# the @async_generator backport's twin of the same hook (glue_async_generator): the manager keeps its generator in `_agen`
+AG_ = G + "glue_async_generator."
+
+
+def gcm_backport_setup(ex, p):
+    mgr = sym_ref(p, "mgr", "gcm")
+    c = sym_ref(p, "context", "Context")
+    p.pc.append(Val.is_boolv(p.getf(c.t, "is_exiting")))
+    inner = p.getf(c.t, "inner_stack")
+    fr = p.getf(inner, "frames")
+    p.pc.append(Or(Val.is_none(inner), And(is_kind(inner, "Stack"), is_exact_kind(fr, "list"), p.length(fr) >= 0)))
+    p.pc.append(is_exact_kind(p.getf(mgr.t, "_func_name"), "str"))
+    p.env.update(mgr=mgr, context=c)
+    return dict(mgr=mgr, context=c)
+
+
+def gcm_backport_post(ctx):
+    c, mgr = ctx.args["context"].t, ctx.args["mgr"].t
+    H0, H = ctx.H0, ctx.H
+    calls = [t for t in ctx.p.trace if t[0] == "extract_child"]
+    exiting = Val.b(H0.getf(c, "is_exiting"))
+    gen = H0.getf(mgr, "_agen")
+    if calls:
+        (item, ft), (_, st) = calls[0][1], calls[0][2]
+        body = And(Not(exiting), BoolVal(len(calls) == 1), item == gen, ft == mkbool(False), H.getf(c, "inner_stack") == st)
+    else:
+        body = And(exiting, H.getf(c, "inner_stack") == H0.getf(c, "inner_stack"))
+    return And(body, is_exact_kind(H.getf(c, "description"), "str"), H.getf(c, "obj") == H0.getf(c, "obj"),
+               H.getf(c, "children") == H0.getf(c, "children"), H.getf(c, "hide") == H0.getf(c, "hide"))
+
+
+GCM_ELAB_BACKPORT = Unit("C09.elaborate_generatorbased_contextmanager@async_generator_backport", AG_ + "elaborate_generatorbased_contextmanager",
+                         gcm_backport_setup, post=[Clause("C09.gcm_backport.inner_stack_unless_exiting", gcm_backport_post)],
+                         bindings=dict(EXTRACT_BINDINGS, **{"_extract.extract_child": contract_extract_child_glue}),
+                         methods=dict(STD_METHODS), ctors=dict(CTORS), known_classes=KNOWN, field_types={"_func_name": "str"},
+                         assumptions=["the async_generator package is not installed in the sandbox: no native leg exercises this hook"])
+
+
+def attr_unwrapper(unit, func, param, attr):
+    def setup(ex, p):
+        x = sym_ref(p, param, "other")
+        p.env[param] = x
+        return {param: x}
+    def post(ctx):
+        x = ctx.args[param].t
+        names = sorted(set(ctx.H.fields) | set(ctx.H0.fields))
+        return And(ctx.result.t == ctx.H0.getf(x, attr), ctx.H.alloc == ctx.H0.alloc, *[ctx.H.field(n) == ctx.H0.field(n) for n in names])
+    return Unit(unit, AG_ + func, setup, post=[Clause(unit + ".returns_the_wrapped_object_and_writes_nothing", post)],
+                bindings=dict(EXTRACT_BINDINGS), methods=dict(STD_METHODS), known_classes=KNOWN,
+                allowed_raise=lambda ctx: BoolVal(False),
+                assumptions=["attribute access on the backport's objects is a plain field read (attribute accesses are type-correct)"])
+
+
+UNITS_BACKPORT = [GCM_ELAB_BACKPORT,
+                  attr_unwrapper("C03.unwrap_async_generator_backport", "unwrap_async_generator_backport", "agen", "_coroutine"),
+                  attr_unwrapper("C03.unwrap_async_generator_backport_next_iter", "unwrap_async_generator_backport_next_iter", "aw", "_it")]
+
 ucg_result = Function("unwrap_context_generator_result", Val, Val, Val)
 eo_frame = Function("extract_outermost_result", Val, Val)
 eo_fails = Function("extract_outermost_no_frames", Val, BoolSort())
@@ -824,3 +881,4 @@ GB_UNITS = [gb_unit("greenback_shim", "elaborate_greenback_shim", shim_post), gb
             gb_unit("greenback_await", "elaborate_greenback_await", await_post, both=False)]
 UNITS_C15 += GB_UNITS
 UNITS += GB_UNITS
+UNITS += UNITS_BACKPORT
